@@ -221,6 +221,9 @@ pub fn run_engine(ctx: &Ctx, prop: &str) -> EngineResult {
     let mut excluded = 0u64;
     let mut compared = 0u64;
     let mut rejected_samples: Vec<Value> = Vec::new();
+    // distinct (family, reason) pairs of rejections: a harness-side refusal or a family that is
+    // rejected wholesale must be visible
+    let mut reject_reasons: BTreeMap<(String, String), u64> = BTreeMap::new();
     for (c, r) in cases.iter().zip(&results) {
         let Some(r) = r else {
             not_run += 1;
@@ -231,6 +234,7 @@ pub fn run_engine(ctx: &Ctx, prop: &str) -> EngineResult {
             ProgResult::Rejected(e) => {
                 rejected += 1;
                 fam.1 += 1;
+                *reject_reasons.entry((c.family.to_string(), clip(e, 90))).or_insert(0) += 1;
                 if rejected_samples.len() < 5 {
                     rejected_samples.push(json!({"feature": c.feature, "error": clip(e, 120)}));
                 }
@@ -297,6 +301,19 @@ pub fn run_engine(ctx: &Ctx, prop: &str) -> EngineResult {
     rep.set("per_family_accepted_rejected", json!(per_family.iter().map(|(k, v)| json!({"family": k, "accepted": v.0, "rejected": v.1})).collect::<Vec<_>>()));
     rep.set("cycle_outcomes", json!(outcomes));
     rep.set("rejected_samples", json!(rejected_samples));
+    {
+        let mut top: Vec<(&(String, String), &u64)> = reject_reasons.iter().collect();
+        top.sort_by(|a, b| b.1.cmp(a.1));
+        rep.set("rejection_reasons_top", json!(top.iter().take(12).map(|((f, e), n)| json!({"family": f, "reason": e, "count": n})).collect::<Vec<_>>()));
+        if let Some(((f, e), n)) = reject_reasons.iter().find(|((_, e), _)| e.starts_with("harness:")) {
+            return machinery(format!("{n} programs of family {f} could not be driven by the harness: {e}"));
+        }
+        for (f, (acc, rej)) in &per_family {
+            if *acc == 0 && *rej > 0 {
+                return machinery(format!("family {f} is vacuous: all {rej} programs were rejected by the compiler"));
+            }
+        }
+    }
     if prop == "C02" {
         rep.set("programs_compared_with_reference", compared);
         rep.set("programs_left_undefined_by_reference", excluded);
